@@ -149,6 +149,23 @@ theorem zModal_isStateSol (A : Matrix ι ι ℂ) (U : Matrix ι κ ℂ) (V : Mat
 
 /-! ### the model's sums are Mathlib's -/
 
+@[simp] theorem Memo.get_ofFn {α : Type} {n : ℕ} (f : Fin n → α) : (Memo.ofFn f).get = f := by
+  funext i
+  simp [Memo.get, Memo.ofFn]
+
+/-- the loops materialise their state; mathematically they are the plain recurrences -/
+theorem runModal_cons_cons {C : Type} [Add C] [Mul C] {N : ℕ} (order1 : Bool) (c : Fin N → C × C × C)
+    (y w0 w1 : Fin N → C) (ws : List (Fin N → C)) :
+    runModal order1 c y (w0 :: w1 :: ws) = y :: runModal order1 c (stepModal order1 c y w0 w1) (w1 :: ws) := by
+  rw [runModal]
+  simp only [Memo.get_ofFn]
+
+theorem runExp_cons_cons {α : Type} [Add α] [Mul α] [Zero α] {n : ℕ} (order1 : Bool) (c : ExpCoef α n)
+    (dv : (Fin n → α) × (Fin n → α)) (f0 f1 : Fin n → α) (fs : List (Fin n → α)) :
+    runExp order1 c dv (f0 :: f1 :: fs) = dv :: runExp order1 c (expStep order1 c dv f0 f1) (f1 :: fs) := by
+  rw [runExp]
+  simp only [Memo.get_ofFn]
+
 theorem dotFin_eq {n : ℕ} (a x : Fin n → ℂ) : dotFin a x = ∑ k, a k * x k := by
   simp [dotFin, List.sum_ofFn]
 
